@@ -18,7 +18,7 @@ type runner struct {
 	r       *hx.Rng
 	idx     int
 	d       *dataset
-	sh      *engine.VerifShard
+	dp      *deployment
 	configs []config
 	maxDen  int64
 	shown   map[string]int
@@ -39,7 +39,7 @@ func reverseAnswer(a answer) answer {
 func (h *runner) run(q query, cf config) answer {
 	var parts []engine.VerifPart
 	var err error
-	perr := hx.Safe(func() { parts, err = h.sh.QueryWith(q.sql(), qlFields, tagKeys, cf.opts()) })
+	perr := hx.Safe(func() { parts, err = h.dp.query(q.sql(), cf.opts()) })
 	if perr != "" {
 		return answer{err: perr}
 	}
@@ -81,20 +81,20 @@ func (h *runner) check(q query, phase string) {
 			tiesMoved = true
 		}
 		rawTexts = append(rawTexts, raw.text())
-		line := c.Emit(fmt.Sprintf("q %s @ %s %s ds=%d", q.opText(), cf.text(), phase, h.idx), got)
+		line := c.Emit(fmt.Sprintf("q %s @ %s %s ds=%d dep=%dx%d", q.opText(), cf.text(), phase, h.idx, h.dp.nPts, h.dp.nShards), got)
 		if got != "ans" {
 			nonEmpty = true
 		}
 		if i == 0 {
 			first, firstLine = got, line
 			if got != want {
-				h.violation(line, classify(q, "spec"), fmt.Sprintf("ds=%d %s [%s %s] answers %s, the reference evaluation gives %s; data: %s; history: %s", h.idx, q.sql(), cf.text(), phase, clip(got), clip(want), clip(h.d.text()), h.d.history()))
+				h.violation(line, classify(q, "spec"), fmt.Sprintf("ds=%d ["+h.dp.text()+"] %s [%s %s] answers %s, the reference evaluation gives %s; data: %s; history: %s", h.idx, q.sql(), cf.text(), phase, clip(got), clip(want), clip(h.d.text()), h.d.history()))
 			}
 			continue
 		}
 		if got != first {
 			canonAgree = false
-			h.violation(line, classify(q, "config"), fmt.Sprintf("ds=%d %s answers %s under [%s] and %s under [%s] (%s); data: %s; history: %s", h.idx, q.sql(), clip(first), h.configs[0].text(), clip(got), cf.text(), phase, clip(h.d.text()), h.d.history()))
+			h.violation(line, classify(q, "config"), fmt.Sprintf("ds=%d ["+h.dp.text()+"] %s answers %s under [%s] and %s under [%s] (%s); data: %s; history: %s", h.idx, q.sql(), clip(first), h.configs[0].text(), clip(got), cf.text(), phase, clip(h.d.text()), h.d.history()))
 		}
 	}
 	// the canonical answers agree, the answers as returned do not: only the rows of one
@@ -112,7 +112,7 @@ func (h *runner) check(q query, phase string) {
 						cls = "first-bool-ties"
 					}
 				}
-				h.violation(firstLine+i, cls, fmt.Sprintf("ds=%d %s answers %s under [%s] and %s under [%s] (%s); data: %s; history: %s", h.idx, q.sql(), clip(rawTexts[0]), h.configs[0].text(), clip(rawTexts[i]), h.configs[i].text(), phase, clip(h.d.text()), h.d.history()))
+				h.violation(firstLine+i, cls, fmt.Sprintf("ds=%d ["+h.dp.text()+"] %s answers %s under [%s] and %s under [%s] (%s); data: %s; history: %s", h.idx, q.sql(), clip(rawTexts[0]), h.configs[0].text(), clip(rawTexts[i]), h.configs[i].text(), phase, clip(h.d.text()), h.d.history()))
 				break
 			}
 		}
@@ -202,7 +202,7 @@ func (h *runner) checkDescPair(q query) {
 	ld := h.c.Emit(fmt.Sprintf("q %s @ %s pair", qd.opText(), cf.text()), dd.text())
 	_ = la
 	if a.err == "" && dd.err == "" && reverseAnswer(a).text() != dd.text() {
-		h.violation(ld, classify(qd, "desc"), fmt.Sprintf("ds=%d %s [%s] answers %s, which is not the reverse of the ascending answer %s; data: %s; history: %s", h.idx, qd.sql(), cf.text(), clip(dd.text()), clip(a.text()), clip(h.d.text()), h.d.history()))
+		h.violation(ld, classify(qd, "desc"), fmt.Sprintf("ds=%d ["+h.dp.text()+"] %s [%s] answers %s, which is not the reverse of the ascending answer %s; data: %s; history: %s", h.idx, qd.sql(), cf.text(), clip(dd.text()), clip(a.text()), clip(h.d.text()), h.d.history()))
 	}
 	h.c.Count("pair:asc/desc")
 }
@@ -210,12 +210,19 @@ func (h *runner) checkDescPair(q query) {
 func runDataset(c *hx.Ctx, r *hx.Rng, idx int, nq int) error {
 	big := (c.Tier == "thorough" && r.Chance(4)) || c.Arg("big", "") != ""
 	d := genDataset(r.Fork(), big)
-	sh, dir, err := loadDataset(d)
+	// a third of the data sets live in several partitions and / or several shards (time ranges)
+	nPts, nShards := 0, 0
+	if v := c.Arg("deploy", ""); v != "" {
+		fmt.Sscanf(v, "%dx%d", &nPts, &nShards)
+	} else if r.Chance(35) && !big {
+		nPts, nShards = 1+r.Intn(3), 1+r.Intn(3)
+	}
+	dp, err := loadDataset(d, nPts, nShards)
 	if err != nil {
 		return err
 	}
-	defer os.RemoveAll(dir)
-	h := &runner{c: c, r: r, idx: idx, d: d, sh: sh, configs: quickConfigs}
+	c.Count("deployment:" + dp.text())
+	h := &runner{c: c, r: r, idx: idx, d: d, dp: dp, configs: quickConfigs}
 	if c.Tier == "thorough" {
 		h.configs = thoroughConfigs
 	}
@@ -234,8 +241,9 @@ func runDataset(c *hx.Ctx, r *hx.Rng, idx int, nq int) error {
 				cfgs = append(cfgs, cf)
 			}
 		}
-		probe(sh, qs, cfgs)
-		return sh.Close()
+		fmt.Fprintf(os.Stderr, "deployment: %s\n", dp.text())
+		probe(dp, qs, cfgs)
+		return dp.close()
 	}
 	var qs []query
 	for i := 0; i < nq; i++ {
@@ -247,7 +255,7 @@ func runDataset(c *hx.Ctx, r *hx.Rng, idx int, nq int) error {
 		}
 	}
 	// flushes / compactions do not change an answer
-	if err := applyScript(sh, d, d.post); err != nil {
+	if err := applyScript(dp, d, d.post); err != nil {
 		line := c.Emit("note maintenance-failed", "err")
 		c.Violation(line, "", fmt.Sprintf("maintenance failed: %v (%v)", err, d.post))
 	}
@@ -262,7 +270,7 @@ func runDataset(c *hx.Ctx, r *hx.Rng, idx int, nq int) error {
 			fmt.Fprintf(os.Stderr, "  ds=%d class[%s]=%d\n", idx, k, n)
 		}
 	}
-	return sh.Close()
+	return dp.close()
 }
 
 func runAll(c *hx.Ctx) error {
